@@ -1,5 +1,6 @@
 """IMPL side of the C05 engine (see coq/Run/C05.v): sign with the library (SignatureHash +
 CKey.sign), verify with the library's VerifyScript, before and after an edit."""
+import os, sys
 import vals
 import bitcoin.core.scripteval as E
 from bitcoin.core import Hash160
@@ -7,6 +8,10 @@ from bitcoin.core.script import (CScript, SignatureHash, OP_CHECKSIG, OP_DUP, OP
                                  OP_CHECKMULTISIG, OP_EQUAL, OP_0)
 from bitcoin.wallet import CBitcoinSecret
 from .txconv import tx_from_val
+
+
+def wrongkey_any(op, wk):
+    return bool(wk) if op == 1 else False
 
 
 def outcome(f):
@@ -74,6 +79,32 @@ def run(op, a):
         tx2.vin[idx2].scriptSig = ssig
         fl = {E.SCRIPT_VERIFY_P2SH}
         r0 = outcome(lambda: E.VerifyScript(ssig, spk, tx, idx, fl))
+        # the txFrom / txTo entry point: the same spend, re-signed for an outpoint that really is the
+        # output of a funding transaction (which itself carries witness data), must get from
+        # VerifySignature the answer VerifyScript gives (both without flags)
+        if len(secrets[0]) > 2 and secrets[0][1] % 3 == 0 and not wrongkey_any(op, wrongkey):
+            from bitcoin.core import CTransaction, CTxIn, CTxOut, COutPoint, CTxWitness, CTxInWitness
+            from bitcoin.core.script import CScriptWitness
+            n_out = tx.vin[idx].prevout.n % 3
+            fund = CTransaction([CTxIn(COutPoint(b'\x33' * 32, 1))], [CTxOut(1, CScript(b'\x51'))] * n_out + [CTxOut(5000, spk)], 0, 2,
+                                CTxWitness((CTxInWitness(CScriptWitness((b'w', b''))),)))
+            t3 = tx_from_val(tv, mutable=True)
+            t3.vin[idx].prevout.hash, t3.vin[idx].prevout.n = fund.GetTxid(), n_out
+            sigs3 = [k.sign(SignatureHash(inner, t3, idx, ht)) + bytes([ht]) for k, ht in zip(signers, hts)]
+            parts3 = [sigs3[0]] if template == 0 else [sigs3[0], pubs[0]] if template == 1 else [OP_0] + sigs3
+            if template == 3:
+                parts3 = parts3 + [bytes(inner)]
+            t3.vin[idx].scriptSig = CScript(parts3)
+            via_sig = outcome(lambda: E.VerifySignature(fund, t3, idx))
+            via_script = outcome(lambda: E.VerifyScript(t3.vin[idx].scriptSig, spk, t3, idx))
+            def fam(x):     # accept / refused with a validation error / anything else
+                return 0 if x == 0 else ('refused' if isinstance(x, vals.Err) and x.code in vals.VALIDATION_CODES else x)
+            via_p2sh = outcome(lambda: E.VerifyScript(t3.vin[idx].scriptSig, spk, t3, idx, fl))
+            if os.environ.get('C05_DEBUG'): print('DBG', via_sig, via_script, via_p2sh, r0, file=sys.stderr)
+            # (without the P2SH flag a P2SH-wrapped spend only proves the hash, so template 3 is compared
+            # between the two flag-less entry points only)
+            if fam(via_sig) != fam(via_script) or (template != 3 and not (fam(via_script) == fam(via_p2sh) == fam(r0))):
+                r0 = vals.Err(vals.EXN_CODES['OtherErr'])
         # the same edit applied IN PLACE to the object that was just verified (same identity, new
         # field values), verified again straight away, must give the same answer as a freshly built
         # edited transaction
